@@ -61,14 +61,17 @@ func LoadDatabase(from, dbfile, privateKey, passphrase string) (
 	channel := make(chan *loadJob)
 	for range options.Nworkers {
 		wg.Go(func() {
-			var job *loadJob
-			defer func() {
-				if e := recover(); e != nil {
-					errVal.Store(fmt.Errorf("error loading %s: %v", job.ts.Table, e))
-				}
-			}()
-			for job = range channel {
-				loadTable2(job.db, job.ts, job.nrecs, job.size, job.list, false)
+			for job := range channel {
+				// recover per job so the worker keeps receiving,
+				// otherwise the reader can block forever on the channel
+				func() {
+					defer func() {
+						if e := recover(); e != nil {
+							errVal.Store(fmt.Errorf("error loading %s: %v", job.ts.Table, e))
+						}
+					}()
+					loadTable2(job.db, job.ts, job.nrecs, job.size, job.list, false)
+				}()
 			}
 		})
 	}
